@@ -1,5 +1,5 @@
 (* C05 — non-vacuity: concrete scripts and schedules meeting the theorems' hypotheses. *)
-From CJ Require Import Common.Base C05.Model C05.Proofs C05.Sched C05.ModelTcp C05.ProofsTcp C05.Run.
+From CJ Require Import Common.Base C05.Model C05.Proofs C05.Sched C05.ModelTcp C05.ProofsTcp C05.ModelProxy C05.ProofsProxy C05.Run.
 
 Definition ab : bytes := [97; 98]. Definition c_ : bytes := [99].
 
@@ -121,4 +121,24 @@ Example relay_on_tcp :
   let f := srun sock0 ([Op (SWrite ab); Op (SWrite c_)] ++ ops_events (opsB ctcp) ++ [Tick; Deliver 2; Tick; Deliver 5]) in
   finished ctcp = true /\ delivered (th_acc (up ctcp)) = ab ++ c_ /\ counted (th_acc (up ctcp)) = 3 /\
   s_got f = ab ++ c_ /\ s_ph f = Ended PEof.
+Proof. vm_compute. repeat split. Qed.
+
+(* ---------------- tunnels in sequence through Proxy(): early exits of every kind, then ordinary tunnels ---------------- *)
+Definition t_ab : bspec := Lit [97; 98; 99]. Definition t_de : bspec := Lit [100; 101]. Definition t_x : bspec := Lit [120; 121; 122].
+Example seq_ex :
+  chk_seq [((1, [], []), (1, Lit [], Lit [], 0, 0, false, true, true, (0,0,0,0,0,0,0)));
+           ((0, [t_ab; t_de], [t_x]), (0, Lit [97;98;99;100;101], Lit [120;121;122], 5, 3, true, true, true, (5,3,5,3,0,0,1)));
+           ((2, [], []), (2, Lit [], Lit [], 0, 0, false, false, true, (0,0,0,0,0,0,0)));
+           ((3, [], []), (0, Lit [1], Lit [], 1, 0, true, true, false, (1,0,1,0,0,1,1)));
+           ((0, [t_ab], []), (0, Lit [97;98;99], Lit [], 3, 0, true, true, true, (3,0,3,0,0,1,1)))] = true.
+Proof. vm_compute. reflexivity. Qed.
+
+(* the hypotheses of C05_tunnels_in_sequence_are_independent are met by a sequence with a failed dial,
+   a failed header and a SetDeadline exit in front of an ordinary tunnel, whose outcome is the fresh-process one *)
+Definition seq4 : list pin := map mk_pin [(1, [], []); (2, [], []); (3, [], []); (0, [t_ab; t_de], [t_x])].
+Example seq_independent_ex :
+  nth_error (snd (proxy_seq pstats0 seq4)) 3 = Some (snd (proxy pstats0 (mk_pin (0, [t_ab; t_de], [t_x])))) /\
+  x_up (snd (proxy pstats0 (mk_pin (0, [t_ab; t_de], [t_x])))) = [97; 98; 99; 100; 101] /\
+  x_down (snd (proxy pstats0 (mk_pin (0, [t_ab; t_de], [t_x])))) = [120; 121; 122] /\
+  ps_completed (fst (proxy_seq pstats0 seq4)) = 2 /\ ps_sessions (fst (proxy_seq pstats0 seq4)) = 0%Z.
 Proof. vm_compute. repeat split. Qed.
